@@ -435,7 +435,7 @@ def argreduce_preprocess(array, axis):
         idx,
         dtype=array.dtype,
         meta=array._meta,
-        name="groupby-argreduce-preprocess",
+        name="groupby-argreduce-preprocess-" + dask.base.tokenize(array, idx),
     )
 
 
